@@ -124,33 +124,139 @@ def plusHeight (ws : List String) : Bool :=
   | "nominate" :: _ | "revnom" :: _ | "tvote" :: _ | "trevoke" :: _ => ws.getLast? == some "+"
   | _ => false
 
-def step (st : Option World) (line : String) : Option World × String :=
+/-- driver state: a one-call-at-a-time world (cases `reset …`) or a node (cases `reset node …`) -/
+inductive St
+  | none
+  | world (w : World)
+  | node (n : Node)
+
+/-- `conc <g> <reps> <call> ; <call> ; …`: the calls, if the line is well formed -/
+def parseConc (ws : List String) : Option (List Call) :=
+  match ws with
+  | g :: reps :: rest =>
+    match g.toNat?, reps.toNat? with
+    | some g, some reps =>
+      if g < 1 || g > 64 || reps < 1 || reps > 100000 then Option.none
+      else
+        let groups := (" ".intercalate rest).splitOn ";"
+        let calls := groups.map fun grp =>
+          match words grp with
+          | k :: r =>
+            if ["xfer", "lock", "unlock", "propose", "vote", "thaw"].contains k then parseCall (k :: r) else Option.none
+          | [] => Option.none
+        if calls.all (·.isSome) && !calls.isEmpty then some (calls.filterMap id) else Option.none
+    | _, _ => Option.none
+  | _ => Option.none
+
+def nodeCall (ws : List String) : Option Call :=
+  match ws with
+  | "init" :: _ | "xfer" :: _ | "propose" :: _ | "vote" :: _ => parseCall ws
+  | _ => Option.none
+
+def okHead (c : Call) (w' : World) : String :=
+  match c with
+  | .propose .. => s!"ok {w'.lastPid}"
+  | _ => "ok"
+
+def stepNode (n : Node) (ws : List String) : Node × String :=
+  match ws with
+  | "pre" :: tag :: cw =>
+    match nodeCall cw with
+    | some .init | Option.none => (n, "bad-op")
+    | some c =>
+      let r := step? n.live c
+      let h : Held := { call := c, seen := n.log.length, ok := r.isSome }
+      ({ n with held := aput n.held tag h },
+        match r with
+        | some w' => okHead c w'
+        | Option.none => "reject")
+  | ["ver", tag] =>
+    match aget n.held tag with
+    | some h =>
+      if !h.ok then (n, "none")
+      else
+        let good := !conflicts (footprint h.call) (n.log.drop h.seen)
+        ({ n with held := aput n.held tag { h with verified := good } }, if good then "ok" else "reject")
+    | Option.none => (n, "none")
+  | [op, tag] =>
+    if op == "sub" || op == "dotx" then
+      match aget n.held tag with
+      | some h =>
+        if !h.ok || (op == "dotx" && !h.verified) then (n, "none | " ++ dump n.live)
+        else
+          let n := { n with held := aerase n.held tag }
+          match n.accept h with
+          | some n' => (n', "ok | " ++ dump n'.live)
+          | Option.none => (n, "reject | " ++ dump n.live)
+      | Option.none => (n, "none | " ++ dump n.live)
+    else if op == "qbal" then
+      match tag.toNat? with
+      | some a =>
+        (n, match n.queryBalance a with
+          | some t => toString t
+          | Option.none => "none")
+      | Option.none => (n, "bad-op")
+    else
+      match nodeCall ws with
+      | some c =>
+        match n.accept { call := c, seen := n.log.length, ok := true } with
+        | some n' => (n', okHead c n'.live ++ " | " ++ dump n'.live)
+        | Option.none => (n, "reject | " ++ dump n.live)
+      | Option.none => (n, "bad-op")
+  | ["pack"] =>
+    let n' := n.pack
+    (n', "ok | " ++ dump n'.live)
+  | _ =>
+    match nodeCall ws with
+    | some c =>
+      match n.accept { call := c, seen := n.log.length, ok := true } with
+      | some n' => (n', okHead c n'.live ++ " | " ++ dump n'.live)
+      | Option.none => (n, "reject | " ++ dump n.live)
+    | Option.none => (n, "bad-op")
+
+def stepWorld (w : World) (ws : List String) : World × String :=
+  match ws with
+  | "conc" :: rest =>
+    match parseConc rest with
+    | some calls =>
+      let vs := calls.map fun c => if (step? w c).isSome then "ok" else "reject"
+      (w, " ".intercalate vs ++ " | " ++ dump w)
+    | Option.none => (w, "bad-op")
+  | _ =>
+    -- `+` is sugar for the two calls `seal`, then the call at the new tip; a malformed line seals nothing
+    let (w, ws) :=
+      if plusHeight ws then
+        let ws' := ws.dropLast ++ [toString (sealBlock w).tip]
+        if (parseCall ws').isSome then (sealBlock w, ws') else (w, ws)
+      else (w, ws)
+    match parseCall ws with
+    | some c =>
+      match step? w c with
+      | Option.none => (w, "reject | " ++ dump w)
+      | some w' => (w', okHead c w' ++ " | " ++ dump w')
+    | Option.none => (w, "bad-op")
+
+/-- quotas of a node's genesis: positive, every account once -/
+def nodePreOk (pre : List (Acct × Int)) : Bool :=
+  pre.all (fun p => p.2 > 0) && (pre.map (·.1)).eraseDups.length == pre.length
+
+def step (st : St) (line : String) : St × String :=
   match words line with
+  | "reset" :: "node" :: pre =>
+    match parsePre pre with
+    | some pre =>
+      if nodePreOk pre then (.node { live := { pre := pre }, conf := { pre := pre } }, "ok") else (st, "bad-op")
+    | Option.none => (st, "bad-op")
   | "reset" :: pre =>
     match parsePre pre with
-    | some pre => (some { pre := pre }, "ok")
-    | none => (st, "bad-op")
+    | some pre => (.world { pre := pre }, "ok")
+    | Option.none => (st, "bad-op")
   | ws =>
-    -- `+` is sugar for the two calls `seal`, then the call at the new tip; a malformed line seals nothing
-    let (st, ws) :=
-      match st with
-      | some w =>
-        if plusHeight ws then
-          let ws' := ws.dropLast ++ [toString (sealBlock w).tip]
-          if (parseCall ws').isSome then (some (sealBlock w), ws') else (st, ws)
-        else (st, ws)
-      | none => (st, ws)
-    match st, parseCall ws with
-    | some w, some c =>
-      match step? w c with
-      | none => (some w, "reject | " ++ dump w)
-      | some w' =>
-        let head := match c with
-          | .propose .. => s!"ok {w'.lastPid}"
-          | _ => "ok"
-        (some w', head ++ " | " ++ dump w')
-    | _, _ => (st, "bad-op")
+    match st with
+    | .none => (st, "bad-op")
+    | .world w => let (w', a) := stepWorld w ws; (.world w', a)
+    | .node n => let (n', a) := stepNode n ws; (.node n', a)
 
-def run : IO Unit := loop step none
+def run : IO Unit := loop step St.none
 
 end XV.Drv.GovToken
